@@ -521,7 +521,7 @@ def check_C09(ctx):
     # part of the report that precedes it must not hide it
     sinkc = []
     for c, first in zip(cases, firsts):
-        if "log.yaml" in c["files"] and c["cmd"] in ("reg", "bal", "csv-log", "print", "quantity", "totals", "unresolved") and len(sinkc) < ctx.scale(60, 600):
+        if c["files"].get("food.yaml") == good_book and c["cmd"] in ("reg", "bal", "csv-log", "print", "quantity", "totals", "unresolved") and len(sinkc) < ctx.scale(80, 600):      # the malformed line is in the LOG, records may precede it
             sinkc.append((dict(c, sink=r.choice([0, 0, 1, 7, 40])), first))
     sres = cli_diff(ctx, [c for c, _ in sinkc], project=ws_norm, tag="C09:cmd-failing-sink:", inproc=True)
     for (c, first), i in zip(sinkc, sres):
